@@ -1,0 +1,42 @@
+//go:build verif
+
+package cache
+
+// Contracts for the deductive verifier in /verif (govc). Comment-only file: adds no code.
+
+// The retry delays form the strictly increasing chain 1s -> 5s -> 1m -> 5m -> 1h -> stop.
+//@ func nextDelay
+//@   prop C06
+//@   ensures [chain] result1 == (delay == time.Second || delay == 5*time.Second || delay == time.Minute || delay == 5*time.Minute)
+//@   ensures [increasing] result1 ==> result0 > delay
+//@   ensures [steps] (delay == time.Second ==> result0 == 5*time.Second) && (delay == 5*time.Second ==> result0 == time.Minute)
+//@     | && (delay == time.Minute ==> result0 == 5*time.Minute) && (delay == 5*time.Minute ==> result0 == time.Hour)
+//@   ensures [stop] !result1 ==> result0 == 0
+//@   modifies nothing
+
+// The body of a clean task: run the delete; stop at the first success; on failure re-arm the timer with the
+// next delay (same key, same task), or give up after the last delay.
+//@ func clean$1
+//@   prop C06
+//@   opaque SetTimer, Error, Report, formatKeys
+//@   requires typeis(val, delayTask)
+//@   let dt = unbox(val, delayTask)
+//@   let rearmed = unbox(arg(SetTimer, 2), delayTask)
+//@   observe TaskFails = ret(task) != nil
+//@   observe Delay = old(dt.delay)
+//@   replay cache_clean
+//@   replay-assume old(dt.delay) == time.Second
+//@   ensures [task-once] calls(task) == 1
+//@   ensures [no-retry-after-success] ret(task) == nil ==> calls(SetTimer) == 0
+//@   ensures [retry-on-failure] ret(task) != nil && (dt.delay == time.Second || dt.delay == 5*time.Second || dt.delay == time.Minute || dt.delay == 5*time.Minute) ==>
+//@     | calls(SetTimer) == 1 && arg(SetTimer, 0) == timingWheel && arg(SetTimer, 1) == key && arg(SetTimer, 3) > dt.delay
+//@     | && typeis(arg(SetTimer, 2), delayTask) && rearmed.delay == arg(SetTimer, 3) && rearmed.task == dt.task
+//@   ensures [give-up-after-last] ret(task) != nil && !(dt.delay == time.Second || dt.delay == 5*time.Second || dt.delay == time.Minute || dt.delay == 5*time.Minute) ==> calls(SetTimer) == 0
+
+// A failed delete is first retried after one second.
+//@ func AddCleanTask
+//@   prop C06
+//@   opaque SetTimer, Randn
+//@   let armed = unbox(arg(SetTimer, 2), delayTask)
+//@   ensures [armed-at-1s] calls(SetTimer) == 1 && arg(SetTimer, 0) == timingWheel && arg(SetTimer, 3) == time.Second
+//@     | && typeis(arg(SetTimer, 2), delayTask) && armed.delay == time.Second && armed.task == task
